@@ -5,7 +5,7 @@
 From Coq Require Import List Bool ZArith String Arith Lia.
 Import ListNotations.
 From HV Require Import lib.Harness model.Schema model.SerialHugr model.DocJson model.NodeParent proofs.SchemaP proofs.DocJsonP
-  proofs.NodeParentP gen.Schemas.
+  proofs.NodeParentP proofs.DataEquivP gen.Schemas.
 Open Scope string_scope.
 Open Scope nat_scope.
 
@@ -74,6 +74,19 @@ Section Published.
   Proof.
     intros f hs mods exts Hf Hop _ He. apply published_pkg_accepted; [exact Hf| |exact He].
     now apply ops_valid0_all; [exact strict_OpType_parent_cert|].
+  Qed.
+
+  (* ... and for any JSON value that is the model's rendering AS DATA (objects as maps): what the per-case tie
+     `data_equiv (doc_json (to_serial h)) emitted` establishes of the text hugr-py wrote *)
+  Theorem published_emitted_doc_accepted : forall (encoder : option string) (f : nat) (h : hugr op md) (s : serial sop md)
+      (emitted : json),
+    4 <= f -> ops_valid0 published_hugr_strict sop op_fields f ->
+    to_serial enc ndp md_is_nil h = Some s ->
+    data_equiv (doc_json op_fields md_fields encoder s) emitted = true ->
+    accepts (3 + f) published_hugr_strict "SerialHugr" emitted = true.
+  Proof.
+    intros e f h s j Hf Hop Hs Hj. rewrite <- (accepts_data_equiv _ _ _ _ _ Hj).
+    exact (published_model_doc_accepted e f h s Hf Hop Hs).
   Qed.
 End Published.
 
